@@ -7,5 +7,6 @@ tmp=$(mktemp -d)
 for p in $ids; do echo $p; done | xargs -P 6 -I{} sh -c "./check {} > $tmp/{}.out 2>&1; echo \$? > $tmp/{}.rc"
 bad=0
 for p in $ids; do line=$(grep -E "^$p: " $tmp/$p.out | tail -1); rc=$(cat $tmp/$p.rc); echo "rc=$rc $line"; [ "$rc" = "0" ] || bad=1; done
+python3 tools/dead_state_scan.py > $tmp/scan.out 2>&1; [ $? = 0 ] || bad=1; head -12 $tmp/scan.out
 rm -rf $tmp
 exit $bad
